@@ -340,13 +340,13 @@ func checkCmd(args []string) {
 				rep["candidate_model"] = truncate(m, 6000)
 				rep["candidate_model_note"] = "model of the obligation with all quantified assumptions removed; a candidate input, to be confirmed by replay on the real code"
 			}
-			if ok, out := tryReplay(root, *prop, v.Obl, rp); ok {
-				rep["replay_confirmed"] = true
-				rep["replay_output"] = truncate(out, 4000)
-				suffix = ""
-			} else if out != "" {
-				rep["replay_output"] = truncate(out, 4000)
-			}
+		}
+		if ok, out := tryReplay(root, *prop, v.Obl, rp); ok {
+			rep["replay_confirmed"] = true
+			rep["replay_output"] = truncate(out, 4000)
+			suffix = ""
+		} else if out != "" {
+			rep["replay_output"] = truncate(out, 4000)
 		}
 		writeJSON(rp, rep)
 		line := fmt.Sprintf("VIOLATION property=%s replay=%s obligation=%s%s", *prop, rp, v.Obl, suffix)
@@ -466,6 +466,9 @@ func checkCmd(args []string) {
 		// vacuity guard: a property description that generates nothing decides nothing
 		fmt.Fprintf(os.Stderr, "property %s: no function under contract / no obligation generated (vacuous check)\n", *prop)
 		os.RemoveAll(work)
+		if exit == 1 {
+			os.Exit(1)
+		}
 		os.Exit(2)
 	}
 	os.RemoveAll(work)
@@ -492,6 +495,8 @@ func tryReplay(root, prop, obl, rp string) (bool, string) {
 	// function-level fallback: any obligation of the function
 	fn := strings.SplitN(obl, "#", 2)[0]
 	cands = append(cands, filepath.Join(root, "replays_src", prop, sanitizeName(fn)+".sh"))
+	// property-level fallback: a bounded enumeration of the property's clauses on the real code
+	cands = append(cands, filepath.Join(root, "replays_src", prop, "_property.sh"))
 	for _, sh := range cands {
 		if _, err := os.Stat(sh); err != nil {
 			continue
